@@ -16,7 +16,7 @@ for fn, kind, what in stale:
     print("STALE-ROW %s | %s | %s" % (fn.replace("crate::", ""), kind, what))
 print("total rows: %d, stale: %d" % (sum(len(v) for v in ctx.table("total").values()), len(stale)))
 # overflow-clause rows
-ARMED = ("C01", "C02", "C03", "C05", "C06", "C07", "C08", "C09", "C10", "C13", "C16", "C17")
+ARMED = ("C01", "C02", "C03", "C05", "C06", "C07", "C08", "C09", "C10", "C13", "C15", "C16", "C17")
 for pid in ARMED:
     total_rule.run_overflow(ctx, entries.TOTAL_ENTRIES[pid], 0, pid)
 T = total_rule.totality_ovf(ctx)
